@@ -160,6 +160,10 @@ func renderProgs(p []txh.TxnProg) string {
 // TestC04_DisjointWritersBothCommit
 func TestC04_DisjointWritersBothCommit(t *testing.T) { disjointWriters(t, "C04") }
 
+// TestC06_ConcurrentWriters: the same generated cases judged for C06: whatever the writers' commits returned,
+// Count() equals the number of items a scan returns.
+func TestC06_ConcurrentWriters(t *testing.T) { disjointWriters(t, "C06") }
+
 // TestC10_ConcurrentWriters: the same generated cases judged for C10: whatever the writers' commits returned,
 // everything the committed state references afterwards loads (fresh reader and independent disk walk).
 func TestC10_ConcurrentWriters(t *testing.T) { disjointWriters(t, "C10") }
@@ -168,6 +172,11 @@ func disjointWriters(t *testing.T, prop string) {
 	if prop == "C10" {
 		stats.For("C10").Meta("exploration",
 			"(concurrent part) 2-3 writer transactions with disjoint keys on one pre-seeded store (some seeded items rewritten by an earlier commit), adds/updates/removes/key-only updates, all value placements, generated free-form, starvation and directed schedules (commits beaten once or twice, refetch-and-merge passes); oracle: after all of them ended - committed or not - a fresh reader loads every item's value and an independent walk of the disk finds every registry entry, node blob and required value blob reachable from the root; non-trivial = some writer went through refetch-and-merge",
+			"standalone mode, in-process transactions")
+	}
+	if prop == "C06" {
+		stats.For("C06").Meta("exploration",
+			"(concurrent part) 2-3 writer transactions with disjoint keys on one pre-seeded store, adds/updates/removes, all value placements, generated free-form, starvation and directed schedules (commits beaten once or twice: refetch-and-merge passes re-apply the count delta); oracle: after all of them ended - committed or not - a fresh reader's Count() equals the number of items its scan returns; non-trivial = some writer went through refetch-and-merge",
 			"standalone mode, in-process transactions")
 	}
 	rec := stats.For(prop)
@@ -278,6 +287,33 @@ func disjointWriters(t *testing.T, prop string) {
 		}
 		if s.Gated > 0 {
 			rec.Exclude("a commit was held back until no other transaction was in the middle of its operations (known finding: inconsistent snapshot while others commit)")
+		}
+		if prop == "C06" {
+			anyMerge, overlapped := false, false
+			for i, r := range res {
+				if mergePasses(r) > 0 {
+					anyMerge = true
+				}
+				if s.OthersMutatedRegistryDuringLastMerge(i) {
+					overlapped = true
+				}
+			}
+			d, err := e.Dump(stores, sop.ForReading)
+			bad := ""
+			if err != nil {
+				bad = "a fresh reader cannot load the store: " + err.Error()
+			} else if d[0].Count != int64(len(d[0].Items)) {
+				bad = fmt.Sprintf("Count()=%d but the scan returns %d items", d[0].Count, len(d[0].Items))
+			}
+			if bad != "" && overlapped && knownMixture {
+				rec.Exclude("another writer's commit wrote the registry in the middle of a writer's last refetch-and-merge pass (known C04 finding: merge pass navigates a mixture of old and new nodes)")
+				return
+			}
+			if bad != "" {
+				t.Fatalf("after the writers ended: %s\n%s", bad, desc)
+			}
+			rec.Case("conc "+desc, anyMerge, "concurrentWriters", txh.PlacementNames[placement])
+			return
 		}
 		if prop == "C10" {
 			anyMerge, overlapped := false, false
